@@ -565,7 +565,353 @@ theorem preprocess_spec (s : St L) (p : ModPath) (hN : GoodName p) (hI : Inv L E
             exact ⟨hI4, (hT1.trans L hT2).trans L (hT3.trans L hT4)⟩
           · exact ⟨hI3, (hT1.trans L hT2).trans L hT3⟩
 
-/-! ## loading preserves the invariant and the frame -/
+/-! ## unload with its cascade -/
+
+/-- every entrypoint belongs to a registered module -/
+def EpsSub (s : St L) : Prop := ∀ x, ahas s.eps x = true → x ∈ s.mods
+
+/-- the imports of a registered module, as `Modules.__dependent_paths` reads them -/
+def importsOf (s : St L) (x : ModPath) : List ModPath :=
+  match alookup s.eps x with
+  | some ep => L.imports ep.tree
+  | none => []
+
+/-- everything a registered module depends on: its imports and, for a non-library module, the library modules -/
+def depsOf (s : St L) (x : ModPath) : List ModPath :=
+  importsOf L s x ++ (if x ∈ E.libs then [] else E.libs)
+
+/-- `s` is what is left of `s₀` after unloading modules: the remaining modules are untouched -/
+structure Sub (s₀ s : St L) : Prop where
+  mods : ∀ x, x ∈ s.mods → x ∈ s₀.mods
+  eps : ∀ x, x ∈ s.mods → alookup s.eps x = alookup s₀.eps x
+  table : ∀ x, x ∈ s.mods → tableOf s.db x = tableOf s₀.db x
+  completed : ∀ x, x ∈ s.mods → (x ∈ s.completed ↔ x ∈ s₀.completed)
+  stored : s.stored = s₀.stored
+  ast : s.ast = s₀.ast
+  mainSrc : s.mainSrc = s₀.mainSrc
+  deps : s.deps = s₀.deps
+  proc : s.proc = s₀.proc
+  len : s.mods.length ≤ s₀.mods.length
+
+theorem Sub.refl (s : St L) : Sub L s s :=
+  ⟨fun _ h => h, fun _ _ => rfl, fun _ _ => rfl, fun _ _ => Iff.rfl, rfl, rfl, rfl, rfl, rfl, Nat.le_refl _⟩
+
+theorem Sub.trans {s₀ s₁ s₂ : St L} (h1 : Sub L s₀ s₁) (h2 : Sub L s₁ s₂) : Sub L s₀ s₂ where
+  mods x hx := h1.mods x (h2.mods x hx)
+  eps x hx := (h2.eps x hx).trans (h1.eps x (h2.mods x hx))
+  table x hx := (h2.table x hx).trans (h1.table x (h2.mods x hx))
+  completed x hx := (h2.completed x hx).trans (h1.completed x (h2.mods x hx))
+  stored := h2.stored.trans h1.stored
+  ast := h2.ast.trans h1.ast
+  mainSrc := h2.mainSrc.trans h1.mainSrc
+  deps := h2.deps.trans h1.deps
+  proc := h2.proc.trans h1.proc
+  len := Nat.le_trans h2.len h1.len
+
+theorem tableOf_filter_ne (db : List (Key × V)) (m x : ModPath) (hx : x ≠ m) :
+    tableOf (db.filter (fun kv => decide (modOf kv.1 ≠ m))) x = tableOf db x := by
+  simp only [tableOf, List.filter_filter]
+  congr 1
+  funext kv
+  by_cases h : modOf kv.1 = x
+  · simp [h, hx]
+  · simp [h]
+
+theorem unloadOne_sub (s : St L) (m : ModPath) : Sub L s (unloadOne L s m) := by
+  refine ⟨?_, ?_, ?_, ?_, rfl, rfl, rfl, rfl, rfl, List.length_filter_le _ _⟩
+  · intro x hx; simp only [unloadOne, List.mem_filter] at hx; exact hx.1
+  · intro x hx
+    simp only [unloadOne, List.mem_filter, decide_eq_true_eq] at hx
+    simp only [unloadOne, alookup_aerase, hx.2, if_false]
+  · intro x hx
+    simp only [unloadOne, List.mem_filter, decide_eq_true_eq] at hx
+    exact tableOf_filter_ne s.db m x hx.2
+  · intro x hx
+    simp only [unloadOne, List.mem_filter, decide_eq_true_eq] at hx
+    simp [unloadOne, hx.2]
+
+theorem unloadOne_not_mem (s : St L) (m : ModPath) : m ∉ (unloadOne L s m).mods := by
+  simp [unloadOne]
+
+theorem filter_ne_length_lt (l : List ModPath) (m : ModPath) (hm : m ∈ l) : (l.filter (fun x => decide (x ≠ m))).length < l.length := by
+  induction l with
+  | nil => cases hm
+  | cons a rest ih =>
+    simp only [List.filter_cons]
+    by_cases h : a = m
+    · subst h
+      simp only [ne_eq, not_true_eq_false, decide_false, Bool.false_eq_true, if_false, List.length_cons]
+      exact Nat.lt_succ_of_le (List.length_filter_le _ _)
+    · have hm' : m ∈ rest := by
+        rcases List.mem_cons.1 hm with e | e
+        · exact absurd e.symm h
+        · exact e
+      simp only [ne_eq, h, not_false_eq_true, decide_true, if_true, List.length_cons]
+      exact Nat.succ_lt_succ (ih hm')
+
+theorem unloadOne_len (s : St L) (m : ModPath) (hm : m ∈ s.mods) : (unloadOne L s m).mods.length < s.mods.length :=
+  filter_ne_length_lt s.mods m hm
+
+theorem unloadOne_inv (s : St L) (m : ModPath) (hI : Inv L E s) : Inv L E (unloadOne L s m) := by
+  refine ⟨?_, ?_, hI.ast, ?_, hI.stored, ?_, ?_⟩
+  · intro x ep hx
+    simp only [unloadOne, alookup_aerase] at hx
+    split at hx
+    · cases hx
+    · exact hI.memo x ep hx
+  · intro x ep hx
+    simp only [unloadOne, alookup_aerase] at hx
+    split at hx
+    · cases hx
+    · exact hI.tree x ep hx
+  · intro k v hkv
+    simp only [unloadOne, List.mem_filter, decide_eq_true_eq] at hkv ⊢
+    exact ⟨hI.tags k v hkv.1, hkv.2⟩
+  · intro x hx
+    simp only [unloadOne, List.mem_filter, decide_eq_true_eq] at hx ⊢
+    exact ⟨hI.completed x hx.1, hx.2⟩
+  · intro x hx
+    simp only [unloadOne, List.mem_filter, decide_eq_true_eq] at hx
+    rw [ahas_iff]
+    simp only [unloadOne, alookup_aerase, hx.2, if_false]
+    exact (ahas_iff _ _).1 (hI.eps x hx.1)
+
+theorem unloadOne_epsSub (s : St L) (m : ModPath) (hE : EpsSub L s) : EpsSub L (unloadOne L s m) := by
+  intro x hx
+  rw [ahas_iff] at hx
+  simp only [unloadOne, alookup_aerase] at hx
+  simp only [unloadOne, List.mem_filter, decide_eq_true_eq]
+  split at hx
+  · obtain ⟨_, h⟩ := hx; cases h
+  · next hne => exact ⟨hE x ((ahas_iff _ _).2 hx), hne⟩
+
+theorem foldl_ind {A : Type} (P : St L → Prop) (g : St L → A → St L) (hg : ∀ s d, P s → P (g s d)) :
+    ∀ (D : List A) (s : St L), P s → P (D.foldl g s) := by
+  intro D
+  induction D with
+  | nil => intro s h; exact h
+  | cons d rest ih => intro s h; exact ih _ (hg s d h)
+
+/-- whatever every single removal preserves, the cascade preserves -/
+theorem unloadF_ind (P : St L → Prop) (h1 : ∀ s m, P s → P (unloadOne L s m)) : ∀ f s m, P s → P (unloadF L E f s m) := by
+  intro f
+  induction f with
+  | zero => intro s m h; exact h
+  | succ f ih =>
+    intro s m h
+    simp only [unloadF]
+    split
+    · exact foldl_ind L P _ (fun s d hs => ih s d hs) _ _ (h1 s m h)
+    · exact h
+
+theorem unloadF_sub (f : Nat) (s : St L) (m : ModPath) : Sub L s (unloadF L E f s m) :=
+  unloadF_ind L E (fun s' => Sub L s s') (fun s' m' h => h.trans L (unloadOne_sub L s' m')) f s m (Sub.refl L s)
+
+theorem unloadF_not_mem (f : Nat) (s : St L) (m x : ModPath) (hx : x ∉ s.mods) : x ∉ (unloadF L E f s m).mods :=
+  fun h => hx ((unloadF_sub L E f s m).mods x h)
+
+theorem unload_sub (s : St L) (m : ModPath) : Sub L s (unload L E s m) := unloadF_sub L E _ s m
+
+/-- the unloaded module is gone -/
+theorem unload_not_mem (s : St L) (m : ModPath) : m ∉ (unload L E s m).mods := by
+  unfold unload
+  by_cases hm : m ∈ s.mods
+  · cases hl : s.mods.length with
+    | zero => simp [List.length_eq_zero_iff.1 hl] at hm
+    | succ f =>
+      simp only [unloadF, hm, if_true]
+      exact foldl_ind L (fun s' => m ∉ s'.mods) _ (fun s' d hs => unloadF_not_mem L E f s' d m hs) _ _ (unloadOne_not_mem L s m)
+  · exact unloadF_not_mem L E _ s m m hm
+
+theorem unload_inv (s : St L) (m : ModPath) (hI : Inv L E s) : Inv L E (unload L E s m) :=
+  unloadF_ind L E (Inv L E) (fun s' m' h => unloadOne_inv L E s' m' h) _ s m hI
+
+theorem unload_epsSub (s : St L) (m : ModPath) (hE : EpsSub L s) : EpsSub L (unload L E s m) :=
+  unloadF_ind L E (EpsSub L) (fun s' m' h => unloadOne_epsSub L s' m' h) _ s m hE
+
+/-- no remaining module imports a removed one (`W`: modules still waiting to be unloaded) -/
+def Dang (s₀ s : St L) (W : List ModPath) : Prop :=
+  ∀ x, x ∈ s.mods → x ∉ W → ∀ d, d ∈ depsOf L E s x → d ∈ s₀.mods → d ∈ s.mods
+
+theorem importsOf_unloadOne (s : St L) (m x : ModPath) (hx : x ≠ m) : depsOf L E (unloadOne L s m) x = depsOf L E s x := by
+  simp only [depsOf, importsOf, unloadOne, alookup_aerase, hx, if_false]
+
+theorem mem_dependents_iff (s : St L) (m x : ModPath) : x ∈ dependents L E s m ↔ x ∈ s.mods ∧ m ∈ depsOf L E s x := by
+  simp only [dependents, depsOf, importsOf, List.mem_filter, Bool.or_eq_true, Bool.and_eq_true, decide_eq_true_eq,
+    Bool.not_eq_true', decide_eq_false_iff_not, List.mem_append]
+  constructor
+  · rintro ⟨hx, h | h⟩
+    · refine ⟨hx, Or.inl ?_⟩
+      cases hep : alookup s.eps x with
+      | none => rw [hep] at h; cases h
+      | some ep => rw [hep] at h; simpa using h
+    · exact ⟨hx, Or.inr (by simp [h.2, h.1])⟩
+  · rintro ⟨hx, h | h⟩
+    · refine ⟨hx, Or.inl ?_⟩
+      cases hep : alookup s.eps x with
+      | none => rw [hep] at h; cases h
+      | some ep => rw [hep] at h; simpa using h
+    · refine ⟨hx, Or.inr ?_⟩
+      by_cases hl : x ∈ E.libs
+      · simp [hl] at h
+      · simp only [hl, if_false] at h; exact ⟨h, hl⟩
+
+theorem mem_dependents_of_import (s : St L) (m x : ModPath) (hx : x ∈ s.mods) (h : m ∈ depsOf L E s x) : x ∈ dependents L E s m :=
+  (mem_dependents_iff L E s m x).2 ⟨hx, h⟩
+
+theorem unloadF_dang (s₀ : St L) : ∀ f s w W, s.mods.length ≤ f → Dang L E s₀ s (w :: W) → Dang L E s₀ (unloadF L E f s w) W := by
+  intro f
+  induction f with
+  | zero =>
+    intro s w W hlen _ x hx
+    have : s.mods = [] := List.length_eq_zero_iff.1 (Nat.le_zero.1 hlen)
+    simp only [unloadF] at hx
+    rw [this] at hx; cases hx
+  | succ f ih =>
+    intro s w W hlen hD
+    simp only [unloadF]
+    by_cases hw : w ∈ s.mods
+    · simp only [hw, if_true]
+      have hlen1 : (unloadOne L s w).mods.length ≤ f := Nat.le_of_lt_succ (Nat.lt_of_lt_of_le (unloadOne_len L s w hw) hlen)
+      have hD1 : Dang L E s₀ (unloadOne L s w) (dependents L E (unloadOne L s w) w ++ W) := by
+        intro x hx hxW d hd hd0
+        have hxw : x ≠ w := fun e => unloadOne_not_mem L s w (e ▸ hx)
+        rw [importsOf_unloadOne L E s w x hxw] at hd
+        simp only [List.mem_append, not_or] at hxW
+        by_cases hdw : d = w
+        · subst hdw
+          exact absurd (mem_dependents_of_import L E _ d x hx (by rw [importsOf_unloadOne L E s d x hxw]; exact hd)) hxW.1
+        · have hxs : x ∈ s.mods := (unloadOne_sub L s w).mods x hx
+          have := hD x hxs (by simp [hxw, hxW.2]) d hd hd0
+          simp only [unloadOne, List.mem_filter, decide_eq_true_eq]
+          exact ⟨this, hdw⟩
+      -- process the dependents one after the other
+      have fold : ∀ (D : List ModPath) (s' : St L), s'.mods.length ≤ f → Dang L E s₀ s' (D ++ W) →
+          Dang L E s₀ (D.foldl (fun s d => unloadF L E f s d) s') W := by
+        intro D
+        induction D with
+        | nil => intro s' _ h; exact h
+        | cons d rest ihD =>
+          intro s' hl h
+          simp only [List.foldl]
+          apply ihD
+          · exact Nat.le_trans (unloadF_sub L E f s' d).len hl
+          · exact ih s' d (rest ++ W) hl h
+      exact fold _ _ hlen1 hD1
+    · simp only [hw, if_false]
+      intro x hx hxW d hd hd0
+      exact hD x hx (by simp [hxW]; exact fun e => hw (e ▸ hx)) d hd hd0
+
+/-- after `unload m` nothing that is left imports something that was removed -/
+theorem unload_dang (s : St L) (m : ModPath) : Dang L E s (unload L E s m) [] := by
+  apply unloadF_dang L E s _ s m [] (Nat.le_refl _)
+  intro x _ _ d _ hd0
+  exact hd0
+
+/-- a set of registered modules that is closed under dependencies (imports, and the library modules for a non-library module) -/
+structure ClosedSet (s : St L) (O : ModPath → Prop) : Prop where
+  mods : ∀ x, O x → x ∈ s.mods
+  deps : ∀ x, O x → ∀ d, d ∈ depsOf L E s x → O d
+
+/-- what `O` looked like in `s` is what it looks like in `s'` -/
+structure FrameOn (O : ModPath → Prop) (s s' : St L) : Prop where
+  mods : ∀ x, O x → x ∈ s'.mods
+  eps : ∀ x, O x → alookup s'.eps x = alookup s.eps x
+  table : ∀ x, O x → tableOf s'.db x = tableOf s.db x
+  completed : ∀ x, O x → (x ∈ s'.completed ↔ x ∈ s.completed)
+
+theorem FrameOn.refl (O : ModPath → Prop) (s : St L) (h : ∀ x, O x → x ∈ s.mods) : FrameOn L O s s :=
+  ⟨h, fun _ _ => rfl, fun _ _ => rfl, fun _ _ => Iff.rfl⟩
+
+theorem FrameOn.trans {O : ModPath → Prop} {s s' s'' : St L} (h1 : FrameOn L O s s') (h2 : FrameOn L O s' s'') : FrameOn L O s s'' where
+  mods := h2.mods
+  eps x hx := (h2.eps x hx).trans (h1.eps x hx)
+  table x hx := (h2.table x hx).trans (h1.table x hx)
+  completed x hx := (h2.completed x hx).trans (h1.completed x hx)
+
+theorem ClosedSet.transport {O : ModPath → Prop} {s s' : St L} (hC : ClosedSet L E s O) (hF : FrameOn L O s s') : ClosedSet L E s' O where
+  mods := hF.mods
+  deps x hx d hd := by
+    apply hC.deps x hx d
+    unfold depsOf importsOf at hd ⊢
+    rw [hF.eps x hx] at hd
+    exact hd
+
+/-- unloading a module outside a closed set leaves the set alone -/
+theorem unloadF_keeps (O : ModPath → Prop) : ∀ f s w, ¬ O w → ClosedSet L E s O →
+    ClosedSet L E (unloadF L E f s w) O ∧ FrameOn L O s (unloadF L E f s w) := by
+  intro f
+  induction f with
+  | zero => intro s w _ hC; exact ⟨hC, FrameOn.refl L O s hC.mods⟩
+  | succ f ih =>
+    intro s w hw hC
+    simp only [unloadF]
+    by_cases hws : w ∈ s.mods
+    · simp only [hws, if_true]
+      have hne : ∀ x, O x → x ≠ w := fun x hx e => hw (e ▸ hx)
+      have hF1 : FrameOn L O s (unloadOne L s w) := by
+        refine ⟨?_, ?_, ?_, ?_⟩
+        · intro x hx; simp only [unloadOne, List.mem_filter, decide_eq_true_eq]; exact ⟨hC.mods x hx, hne x hx⟩
+        · intro x hx; simp only [unloadOne, alookup_aerase, hne x hx, if_false]
+        · intro x hx; exact tableOf_filter_ne s.db w x (hne x hx)
+        · intro x hx; simp [unloadOne, hne x hx]
+      have hC1 : ClosedSet L E (unloadOne L s w) O := hC.transport L E hF1
+      -- no dependent of `w` is in the set
+      have hdep : ∀ d, d ∈ dependents L E (unloadOne L s w) w → ¬ O d := by
+        intro d hd hOd
+        exact hw (hC1.deps d hOd w ((mem_dependents_iff L E _ w d).1 hd).2)
+      have fold : ∀ (D : List ModPath) (s' : St L), (∀ d, d ∈ D → ¬ O d) → ClosedSet L E s' O →
+          ClosedSet L E (D.foldl (fun s d => unloadF L E f s d) s') O ∧ FrameOn L O s' (D.foldl (fun s d => unloadF L E f s d) s') := by
+        intro D
+        induction D with
+        | nil => intro s' _ h; exact ⟨h, FrameOn.refl L O s' h.mods⟩
+        | cons d rest ihD =>
+          intro s' hD h
+          simp only [List.foldl]
+          obtain ⟨a, b⟩ := ih s' d (hD d (by simp)) h
+          obtain ⟨a', b'⟩ := ihD _ (fun d' hd' => hD d' (List.mem_cons_of_mem _ hd')) a
+          exact ⟨a', b.trans L b'⟩
+      obtain ⟨a, b⟩ := fold _ _ hdep hC1
+      exact ⟨a, hF1.trans L b⟩
+    · simp only [hws, if_false]
+      exact ⟨hC, FrameOn.refl L O s hC.mods⟩
+
+theorem unload_keeps (O : ModPath → Prop) (s : St L) (w : ModPath) (hw : ¬ O w) (hC : ClosedSet L E s O) :
+    ClosedSet L E (unload L E s w) O ∧ FrameOn L O s (unload L E s w) :=
+  unloadF_keeps L E O _ s w hw hC
+
+/-! ## loading preserves the invariants -/
+
+/-- the dependencies of every registered module outside `Ex` (the modules in the middle of being loaded) are registered -/
+def ClosedEx (s : St L) (Ex : List ModPath) : Prop :=
+  ∀ x, x ∈ s.mods → x ∉ Ex → ∀ d, d ∈ depsOf L E s x → d ∈ s.mods
+
+/-- what neither a load nor an unload ever undoes -/
+structure Global (s s' : St L) : Prop where
+  stored : ∀ p rows, alookup s.stored p = some rows → alookup s'.stored p = some rows
+  mainSrc : s'.mainSrc = s.mainSrc
+  deps : s'.deps = s.deps
+  proc : s'.proc = s.proc
+
+theorem Global.refl (s : St L) : Global L s s := ⟨fun _ _ h => h, rfl, rfl, rfl⟩
+
+theorem Global.trans {s s' s'' : St L} (h1 : Global L s s') (h2 : Global L s' s'') : Global L s s'' :=
+  ⟨fun p rows h => h2.stored p rows (h1.stored p rows h), h2.mainSrc.trans h1.mainSrc, h2.deps.trans h1.deps, h2.proc.trans h1.proc⟩
+
+theorem Frame.global {s s' : St L} (h : Frame L s s') : Global L s s' := ⟨h.stored, h.mainSrc, h.deps, h.proc⟩
+
+theorem Sub.global {s s' : St L} (h : Sub L s s') : Global L s s' :=
+  ⟨fun p rows hp => by rw [h.stored]; exact hp, h.mainSrc, h.deps, h.proc⟩
+
+theorem Touches.global {p : ModPath} {s s' : St L} (h : Touches L p s s') : Global L s s' := ⟨h.stored, h.mainSrc, h.deps, h.proc⟩
+
+theorem Frame.on {O : ModPath → Prop} {s s' : St L} (h : Frame L s s') (hO : ∀ x, O x → x ∈ s.mods) : FrameOn L O s s' :=
+  ⟨fun x hx => h.mods x (hO x hx), fun x hx => h.eps x (hO x hx), fun x hx => h.table x (hO x hx), fun x hx => h.completed x (hO x hx)⟩
+
+theorem Touches.on {O : ModPath → Prop} {p : ModPath} {s s' : St L} (h : Touches L p s s') (hO : ∀ x, O x → x ∈ s.mods) (hp : ¬ O p) :
+    FrameOn L O s s' :=
+  ⟨fun x hx => h.mods ▸ hO x hx, fun x hx => h.eps x (fun e => hp (e ▸ hx)), fun x hx => h.table x (fun e => hp (e ▸ hx)),
+   fun x hx => h.completed x (fun e => hp (e ▸ hx))⟩
 
 theorem Frame.of_touches {p : ModPath} {s s3 s4 : St L} (h1 : Frame L s s3) (h2 : Touches L p s3 s4) (hp : p ∉ s.mods) : Frame L s s4 where
   mods x hx := h2.mods ▸ h1.mods x hx
@@ -577,14 +923,42 @@ theorem Frame.of_touches {p : ModPath} {s s3 s4 : St L} (h1 : Frame L s s3) (h2 
   deps := h2.deps.trans h1.deps
   proc := h2.proc.trans h1.proc
 
-/-- every entrypoint belongs to a registered module -/
-def EpsSub (s : St L) : Prop := ∀ x, ahas s.eps x = true → x ∈ s.mods
+/-- the imports of a registered module are those of the tree of its current source -/
+theorem importsOf_src (s : St L) (x : ModPath) (hI : Inv L E s) (hx : x ∈ s.mods) :
+    ∃ t, (srcOf L E s x).bind L.parse = some t ∧ importsOf L s x = L.imports t := by
+  obtain ⟨ep, hep⟩ := (ahas_iff _ _).1 (hI.eps x hx)
+  exact ⟨ep.tree, hI.tree x ep hep, by simp [importsOf, hep]⟩
+
+theorem depsOf_congr (s s' : St L) (x : ModPath) (hI : Inv L E s) (hI' : Inv L E s') (hx : x ∈ s.mods) (hx' : x ∈ s'.mods)
+    (hm : s'.mainSrc = s.mainSrc) : depsOf L E s' x = depsOf L E s x := by
+  obtain ⟨t, ht, hi⟩ := importsOf_src L E s x hI hx
+  obtain ⟨t', ht', hi'⟩ := importsOf_src L E s' x hI' hx'
+  have : srcOf L E s' x = srcOf L E s x := by unfold srcOf; rw [hm]
+  rw [this, ht] at ht'
+  cases ht'
+  unfold depsOf
+  rw [hi, hi']
+
+/-- rolling back a module that was an exception makes the rest closed again -/
+theorem closedEx_unload (s : St L) (p : ModPath) (Ex : List ModPath) (h : ClosedEx L E s (p :: Ex)) :
+    ClosedEx L E (unload L E s p) Ex := by
+  intro x hx hEx d hd
+  have hsub := unload_sub L E s p
+  have hxp : x ≠ p := fun e => unload_not_mem L E s p (e ▸ hx)
+  have hd' : d ∈ depsOf L E s x := by
+    unfold depsOf importsOf at hd ⊢
+    rw [hsub.eps x hx] at hd
+    exact hd
+  have hds : d ∈ s.mods := h x (hsub.mods x hx) (by simp [hxp, hEx]) d hd'
+  exact unload_dang L E s p x hx (by simp) d hd hds
 
 /-- specification of a function that loads a list of modules -/
 def RecSpec (rec : List ModPath → St L → Except Err Unit × St L) : Prop :=
   ∀ ps s, (∀ p, p ∈ ps → GoodName p) → Inv L E s → SrcOk L s.mainSrc →
-    Inv L E (rec ps s).2 ∧ Frame L s (rec ps s).2 ∧ ((rec ps s).1 = .ok () → ∀ p, p ∈ ps → p ∈ (rec ps s).2.mods) ∧
-    (EpsSub L s → EpsSub L (rec ps s).2)
+    Inv L E (rec ps s).2 ∧ Global L s (rec ps s).2 ∧ (EpsSub L s → EpsSub L (rec ps s).2) ∧
+    ((rec ps s).1 = .ok () → Frame L s (rec ps s).2 ∧ ∀ p, p ∈ ps → p ∈ (rec ps s).2.mods) ∧
+    (∀ O, ClosedSet L E s O → ClosedSet L E (rec ps s).2 O ∧ FrameOn L O s (rec ps s).2) ∧
+    (∀ Ex, ClosedEx L E s Ex → ClosedEx L E (rec ps s).2 Ex)
 
 theorem imports_good (hN : Names L E) (s : St L) (p : ModPath) (ep : Ep Tree NV) (hI : Inv L E s) (hM : SrcOk L s.mainSrc)
     (hep : alookup s.eps p = some ep) : ∀ d, d ∈ L.imports ep.tree → GoodName d := by
@@ -601,33 +975,68 @@ theorem imports_good (hN : Names L E) (s : St L) (p : ModPath) (ep : Ep Tree NV)
     · exact hM ep.tree (by simpa using ht)
     · simp at ht
 
+/-- the facts about the rollback that the load lemma needs -/
+theorem rollback_spec (s0 s3 : St L) (p : ModPath) (hI3 : Inv L E s3) (hG : Global L s0 s3) (hp0 : p ∉ s0.mods)
+    (hE : EpsSub L s0 → EpsSub L s3)
+    (hO : ∀ O, ClosedSet L E s0 O → ClosedSet L E s3 O ∧ FrameOn L O s0 s3)
+    (hEx : ∀ Ex, ClosedEx L E s0 Ex → ClosedEx L E s3 (p :: Ex)) :
+    Inv L E (unload L E s3 p) ∧ Global L s0 (unload L E s3 p) ∧ (EpsSub L s0 → EpsSub L (unload L E s3 p)) ∧
+    (∀ O, ClosedSet L E s0 O → ClosedSet L E (unload L E s3 p) O ∧ FrameOn L O s0 (unload L E s3 p)) ∧
+    (∀ Ex, ClosedEx L E s0 Ex → ClosedEx L E (unload L E s3 p) Ex) := by
+  refine ⟨unload_inv L E s3 p hI3, hG.trans L (unload_sub L E s3 p).global, fun h => unload_epsSub L E s3 p (hE h), ?_, ?_⟩
+  · intro O hC
+    obtain ⟨hC3, hF3⟩ := hO O hC
+    obtain ⟨a, b⟩ := unload_keeps L E O s3 p (fun h => hp0 (hC.mods p h)) hC3
+    exact ⟨a, hF3.trans L b⟩
+  · intro Ex hC
+    exact closedEx_unload L E s3 p Ex (hEx Ex hC)
+
 theorem loadOne_inv (hN : Names L E) (rec : List ModPath → St L → Except Err Unit × St L) (hrec : RecSpec L E rec)
     (p : ModPath) (s : St L) (hp : GoodName p) (hI : Inv L E s) (hM : SrcOk L s.mainSrc) :
-    Inv L E (loadOne L E rec p s).2 ∧ Frame L s (loadOne L E rec p s).2 ∧
-    ((loadOne L E rec p s).1 = .ok () → p ∈ (loadOne L E rec p s).2.mods) ∧
-    (EpsSub L s → EpsSub L (loadOne L E rec p s).2) := by
+    Inv L E (loadOne L E rec (unload L E) p s).2 ∧ Global L s (loadOne L E rec (unload L E) p s).2 ∧
+    (EpsSub L s → EpsSub L (loadOne L E rec (unload L E) p s).2) ∧
+    ((loadOne L E rec (unload L E) p s).1 = .ok () → Frame L s (loadOne L E rec (unload L E) p s).2 ∧ p ∈ (loadOne L E rec (unload L E) p s).2.mods) ∧
+    (∀ O, ClosedSet L E s O → ClosedSet L E (loadOne L E rec (unload L E) p s).2 O ∧ FrameOn L O s (loadOne L E rec (unload L E) p s).2) ∧
+    (∀ Ex, ClosedEx L E s Ex → ClosedEx L E (loadOne L E rec (unload L E) p s).2 Ex) := by
   unfold loadOne
-  by_cases hm : p ∈ s.mods
-  · simp only [hm, if_true]
-    refine ⟨hI, Frame.refl L s, ?_, fun h => h⟩
-    simp
-  · simp only [hm, if_false]
-    -- the libraries
-    have h0 : Inv L E (if p ∈ E.libs then ((.ok () : Except Err Unit), s) else rec E.libs s).2 ∧
-        Frame L s (if p ∈ E.libs then ((.ok () : Except Err Unit), s) else rec E.libs s).2 ∧
-        (EpsSub L s → EpsSub L (if p ∈ E.libs then ((.ok () : Except Err Unit), s) else rec E.libs s).2) := by
-      split
-      · exact ⟨hI, Frame.refl L s, fun h => h⟩
-      · obtain ⟨a, b, _, c⟩ := hrec E.libs s hN.libs hI hM
-        exact ⟨a, b, c⟩
-    generalize (if p ∈ E.libs then ((.ok () : Except Err Unit), s) else rec E.libs s) = r0 at h0
-    obtain ⟨r0r, s0⟩ := r0
-    obtain ⟨hI0, hF0, hE0⟩ := h0
-    simp only at hI0 hF0 hE0
-    cases r0r with
-    | error e => exact ⟨hI0, hF0, (fun h => by cases h), hE0⟩
-    | ok u =>
-      simp only
+  -- the libraries
+  have h0 : Inv L E (if p ∈ s.mods then ((.ok () : Except Err Unit), s) else if p ∈ E.libs then (.ok (), s) else rec E.libs s).2 ∧
+      Global L s (if p ∈ s.mods then ((.ok () : Except Err Unit), s) else if p ∈ E.libs then (.ok (), s) else rec E.libs s).2 ∧
+      (EpsSub L s → EpsSub L (if p ∈ s.mods then ((.ok () : Except Err Unit), s) else if p ∈ E.libs then (.ok (), s) else rec E.libs s).2) ∧
+      ((if p ∈ s.mods then ((.ok () : Except Err Unit), s) else if p ∈ E.libs then (.ok (), s) else rec E.libs s).1 = .ok () →
+        Frame L s (if p ∈ s.mods then ((.ok () : Except Err Unit), s) else if p ∈ E.libs then (.ok (), s) else rec E.libs s).2 ∧
+        (p ∉ E.libs → p ∉ s.mods → ∀ l, l ∈ E.libs → l ∈ (if p ∈ s.mods then ((.ok () : Except Err Unit), s) else if p ∈ E.libs then (.ok (), s) else rec E.libs s).2.mods)) ∧
+      (∀ O, ClosedSet L E s O → ClosedSet L E (if p ∈ s.mods then ((.ok () : Except Err Unit), s) else if p ∈ E.libs then (.ok (), s) else rec E.libs s).2 O ∧
+        FrameOn L O s (if p ∈ s.mods then ((.ok () : Except Err Unit), s) else if p ∈ E.libs then (.ok (), s) else rec E.libs s).2) ∧
+      (∀ Ex, ClosedEx L E s Ex → ClosedEx L E (if p ∈ s.mods then ((.ok () : Except Err Unit), s) else if p ∈ E.libs then (.ok (), s) else rec E.libs s).2 Ex) := by
+    have triv : Inv L E s ∧ Global L s s ∧ (EpsSub L s → EpsSub L s) ∧
+        (∀ O, ClosedSet L E s O → ClosedSet L E s O ∧ FrameOn L O s s) ∧ (∀ Ex, ClosedEx L E s Ex → ClosedEx L E s Ex) :=
+      ⟨hI, Global.refl L s, fun h => h, fun O h => ⟨h, FrameOn.refl L O s h.mods⟩, fun _ h => h⟩
+    by_cases hm : p ∈ s.mods
+    · simp only [hm, if_true]
+      exact ⟨triv.1, triv.2.1, triv.2.2.1, fun _ => ⟨Frame.refl L s, fun _ h => absurd trivial h⟩, triv.2.2.2.1, triv.2.2.2.2⟩
+    · simp only [hm, if_false]
+      by_cases hl : p ∈ E.libs
+      · simp only [hl, if_true]
+        exact ⟨triv.1, triv.2.1, triv.2.2.1, fun _ => ⟨Frame.refl L s, fun h => absurd trivial h⟩, triv.2.2.2.1, triv.2.2.2.2⟩
+      · simp only [hl, if_false]
+        obtain ⟨a, b, c, d, e, f⟩ := hrec E.libs s hN.libs hI hM
+        exact ⟨a, b, c, fun h => ⟨(d h).1, fun _ _ => (d h).2⟩, e, f⟩
+  generalize (if p ∈ s.mods then ((.ok () : Except Err Unit), s) else if p ∈ E.libs then (.ok (), s) else rec E.libs s) = r0 at h0
+  obtain ⟨r0r, s0⟩ := r0
+  obtain ⟨hI0, hG0, hE0, hok0, hO0, hX0⟩ := h0
+  simp only at hI0 hG0 hE0 hok0 hO0 hX0
+  cases r0r with
+  | error e => exact ⟨hI0, hG0, hE0, (fun h => by cases h), hO0, hX0⟩
+  | ok u =>
+    simp only
+    obtain ⟨hF0, hlibs0⟩ := hok0 rfl
+    have hM0 : SrcOk L s0.mainSrc := hG0.mainSrc ▸ hM
+    by_cases hm0 : p ∈ s0.mods
+    · simp only [hm0, if_true]
+      exact ⟨hI0, hG0, hE0, fun _ => ⟨hF0, trivial⟩, hO0, hX0⟩
+    · simp only [hm0, if_false]
+      have hms : p ∉ s.mods := fun h => hm0 (hF0.mods p h)
       -- the entrypoint
       obtain ⟨hI1, hmods1, hdb1, hcompl1, hstored1, hmain1, hdeps1, hproc1, heps1, hepsSame, hepsOk, hepsErr⟩ := epLoad_spec L E s0 p hI0
       generalize epLoad L E s0 p = r1 at hI1 hmods1 hdb1 hcompl1 hstored1 hmain1 hdeps1 hproc1 heps1 hepsSame hepsOk hepsErr
@@ -640,15 +1049,35 @@ theorem loadOne_inv (hN : Names L E) (rec : List ModPath → St L → Except Err
         · subst hxp; rw [hepsSame (hI0.eps x hx)]
         · exact heps1 x hxp
       have hF1 : Frame L s s1 := hF0.trans L hF01
+      have hdeps01 : ∀ x, x ≠ p → depsOf L E s1 x = depsOf L E s0 x := by
+        intro x hx; unfold depsOf importsOf; rw [heps1 x hx]
       cases r1r with
       | error e =>
-        refine ⟨hI1, hF1, (fun h => by cases h), ?_⟩
-        intro hE x hx
-        rw [hepsErr e rfl] at hx
-        rw [hmods1]; exact hE0 hE x hx
+        refine ⟨hI1, hF1.global, ?_, (fun h => by cases h), ?_, ?_⟩
+        · intro hE x hx
+          rw [hepsErr e rfl] at hx
+          rw [hmods1]; exact hE0 hE x hx
+        · intro O hC
+          obtain ⟨hC0, hFO0⟩ := hO0 O hC
+          have := hF01.on L (O := O) hC0.mods
+          exact ⟨hC0.transport L E this, hFO0.trans L this⟩
+        · intro Ex hC x hx hxe d hd
+          have h0c := hX0 Ex hC
+          rw [hmods1] at hx ⊢
+          have hxp : x ≠ p := fun e => hm0 (e ▸ hx)
+          rw [hdeps01 x hxp] at hd
+          exact h0c x hx hxe d hd
       | ok u1 =>
         simp only
         -- registration
+        have hI2 : Inv L E { s1 with mods := addIfAbsent s1.mods p } := by
+          refine ⟨hI1.memo, hI1.tree, hI1.ast, ?_, hI1.stored, ?_, ?_⟩
+          · intro k v hkv; exact mem_addIfAbsent.2 (Or.inl (hI1.tags k v hkv))
+          · intro x hx; exact mem_addIfAbsent.2 (Or.inl (hI1.completed x hx))
+          · intro x hx
+            rcases mem_addIfAbsent.1 hx with h | h
+            · exact hI1.eps x h
+            · exact h ▸ hepsOk rfl
         have hE2 : EpsSub L s → EpsSub L { s1 with mods := addIfAbsent s1.mods p } := by
           intro hE x hx
           simp only at hx ⊢
@@ -659,37 +1088,54 @@ theorem loadOne_inv (hN : Names L E) (rec : List ModPath → St L → Except Err
             apply hE0 hE
             rw [ahas_iff] at hx ⊢
             rw [← heps1 x hxp]; exact hx
-        have hI2 : Inv L E { s1 with mods := addIfAbsent s1.mods p } := by
-          refine ⟨hI1.memo, hI1.tree, hI1.ast, ?_, hI1.stored, ?_, ?_⟩
-          · intro k v hkv; exact mem_addIfAbsent.2 (Or.inl (hI1.tags k v hkv))
-          · intro x hx; exact mem_addIfAbsent.2 (Or.inl (hI1.completed x hx))
-          · intro x hx
-            rcases mem_addIfAbsent.1 hx with h | h
-            · exact hI1.eps x h
-            · exact h ▸ hepsOk rfl
         have hF12 : Frame L s1 { s1 with mods := addIfAbsent s1.mods p } :=
           ⟨fun x hx => mem_addIfAbsent.2 (Or.inl hx), fun _ _ => rfl, fun _ _ => rfl, fun _ _ => Iff.rfl, fun _ _ h => h, rfl, rfl, rfl⟩
         have hF2 := hF1.trans L hF12
+        have hF02 := hF01.trans L hF12
         have hp2 : p ∈ (addIfAbsent s1.mods p) := mem_addIfAbsent.2 (Or.inr rfl)
-        cases hep : alookup s1.eps p with
-        | none => exact ⟨hI2, hF2, (fun h => by cases h), hE2⟩
-        | some ep =>
+        have hM2 : SrcOk L ({ s1 with mods := addIfAbsent s1.mods p } : St L).mainSrc := by
+          have := hF2.mainSrc; simp only at this ⊢; rw [this]; exact hM
+        have hO2 : ∀ O, ClosedSet L E s O → ClosedSet L E ({ s1 with mods := addIfAbsent s1.mods p } : St L) O ∧
+            FrameOn L O s ({ s1 with mods := addIfAbsent s1.mods p } : St L) := by
+          intro O hC
+          obtain ⟨hC0, hFO0⟩ := hO0 O hC
+          have := hF02.on L (O := O) hC0.mods
+          exact ⟨hC0.transport L E this, hFO0.trans L this⟩
+        have hX2 : ∀ Ex, ClosedEx L E s Ex → ClosedEx L E ({ s1 with mods := addIfAbsent s1.mods p } : St L) (p :: Ex) := by
+          intro Ex hC x hx hxe d hd
+          simp only [List.mem_cons, not_or] at hxe
+          simp only at hx ⊢
+          rcases mem_addIfAbsent.1 hx with h | h
+          · have hd' : d ∈ depsOf L E s0 x := by
+              rw [← hdeps01 x hxe.1]; exact hd
+            rw [hmods1] at h
+            exact mem_addIfAbsent.2 (Or.inl (hmods1 ▸ hX0 Ex hC x h hxe.2 d hd'))
+          · exact absurd h hxe.1
+        obtain ⟨ep, hep⟩ := (ahas_iff _ _).1 (hepsOk rfl)
+        simp only [hep]
+        -- the imports
+        obtain ⟨hI3, hG23, hE23, hok23, hO23, hX23⟩ := hrec (L.imports ep.tree) _ (imports_good L E hN _ p ep hI2 hM2 hep) hI2 hM2
+        generalize rec (L.imports ep.tree) { s1 with mods := addIfAbsent s1.mods p } = r3 at hI3 hG23 hE23 hok23 hO23 hX23
+        obtain ⟨r3r, s3⟩ := r3
+        simp only at hI3 hG23 hE23 hok23 hO23 hX23
+        have hG3 : Global L s s3 := hF2.global.trans L hG23
+        have hO3 : ∀ O, ClosedSet L E s O → ClosedSet L E s3 O ∧ FrameOn L O s s3 := by
+          intro O hC
+          obtain ⟨hC2, hFO2⟩ := hO2 O hC
+          obtain ⟨a, b⟩ := hO23 O hC2
+          exact ⟨a, hFO2.trans L b⟩
+        have hX3 : ∀ Ex, ClosedEx L E s Ex → ClosedEx L E s3 (p :: Ex) := fun Ex hC => hX23 _ (hX2 Ex hC)
+        cases r3r with
+        | error e =>
+          obtain ⟨a, b, c, d, f⟩ := rollback_spec L E s s3 p hI3 hG3 hms (fun h => hE23 (hE2 h)) hO3 hX3
+          exact ⟨a, b, c, (fun h => by cases h), d, f⟩
+        | ok u3 =>
           simp only
-          -- the imports
-          have hM2 : SrcOk L ({ s1 with mods := addIfAbsent s1.mods p } : St L).mainSrc := by
-            have := hF2.mainSrc; simp only at this ⊢; rw [this]; exact hM
-          obtain ⟨hI3, hF23, _, hE23⟩ := hrec (L.imports ep.tree) _ (imports_good L E hN _ p ep hI2 hM2 hep) hI2 hM2
-          generalize rec (L.imports ep.tree) { s1 with mods := addIfAbsent s1.mods p } = r3 at hI3 hF23 hE23
-          obtain ⟨r3r, s3⟩ := r3
-          simp only at hI3 hF23 hE23
+          obtain ⟨hF23, himp3⟩ := hok23 rfl
           have hF3 := hF2.trans L hF23
-          cases r3r with
-          | error e => exact ⟨hI3, hF3, (fun h => by cases h), fun hE => hE23 (hE2 hE)⟩
-          | ok u3 =>
-            simp only
-            have hp3 : p ∈ s3.mods := hF23.mods p hp2
-            obtain ⟨hI4, hT4⟩ := preprocess_spec L E s3 p hp hI3 hp3
-            refine ⟨hI4, Frame.of_touches L hF3 hT4 hm, fun _ => hT4.mods ▸ hp3, ?_⟩
+          have hp3 : p ∈ s3.mods := hF23.mods p hp2
+          obtain ⟨hI4, hT4⟩ := preprocess_spec L E s3 p hp hI3 hp3
+          have hE4 : EpsSub L s → EpsSub L (preprocess L E s3 p).2 := by
             intro hE x hx
             rw [hT4.mods]
             by_cases hxp : x = p
@@ -697,37 +1143,86 @@ theorem loadOne_inv (hN : Names L E) (rec : List ModPath → St L → Except Err
             · apply hE23 (hE2 hE)
               rw [ahas_iff] at hx ⊢
               rw [← hT4.eps x hxp]; exact hx
+          have hO4 : ∀ O, ClosedSet L E s O → ClosedSet L E (preprocess L E s3 p).2 O ∧ FrameOn L O s (preprocess L E s3 p).2 := by
+            intro O hC
+            obtain ⟨hC3, hFO3⟩ := hO3 O hC
+            have := hT4.on L (O := O) hC3.mods (fun h => hms (hC.mods p h))
+            exact ⟨hC3.transport L E this, hFO3.trans L this⟩
+          have hM3 : (preprocess L E s3 p).2.mainSrc = s3.mainSrc := hT4.mainSrc
+          have hX4 : ∀ Ex, ClosedEx L E s Ex → ClosedEx L E (preprocess L E s3 p).2 (p :: Ex) := by
+            intro Ex hC x hx hxe d hd
+            rw [hT4.mods] at hx ⊢
+            rw [depsOf_congr L E s3 _ x hI3 hI4 hx (hT4.mods ▸ hx) hM3] at hd
+            exact hX3 Ex hC x hx hxe d hd
+          have hG4 : Global L s (preprocess L E s3 p).2 := hG3.trans L hT4.global
+          generalize preprocess L E s3 p = r4 at hI4 hT4 hE4 hO4 hX4 hG4 hM3
+          obtain ⟨r4r, s4⟩ := r4
+          simp only at hI4 hT4 hE4 hO4 hX4 hG4 hM3
+          cases r4r with
+          | error e =>
+            obtain ⟨a, b, c, d, f⟩ := rollback_spec L E s s4 p hI4 hG4 hms hE4 hO4 hX4
+            exact ⟨a, b, c, (fun h => by cases h), d, f⟩
+          | ok u4 =>
+            refine ⟨hI4, hG4, hE4, fun _ => ⟨Frame.of_touches L hF3 hT4 hms, hT4.mods ▸ hp3⟩, hO4, ?_⟩
+            intro Ex hC x hx hxe d hd
+            by_cases hxp : x = p
+            · subst hxp
+              rw [hT4.mods] at hx ⊢
+              rw [depsOf_congr L E s3 s4 x hI3 hI4 hx (hT4.mods ▸ hx) hM3] at hd
+              simp only [depsOf, List.mem_append] at hd
+              rcases hd with hd | hd
+              · apply himp3 d
+                simp only [importsOf, hF23.eps x hp2] at hd
+                simpa [hep] using hd
+              · by_cases hl : x ∈ E.libs
+                · simp [hl] at hd
+                · simp only [hl, if_false] at hd
+                  exact hF23.mods d (hF02.mods d (hlibs0 hl hms d hd))
+            · exact hX4 Ex hC x hx (by simp [hxp, hxe]) d hd
 
 theorem loadAll_inv (hN : Names L E) : ∀ f, RecSpec L E (loadAll L E f) := by
   intro f
   induction f with
   | zero =>
     intro ps s _ hI _
+    have triv : Inv L E s ∧ Global L s s ∧ (EpsSub L s → EpsSub L s) ∧
+        (∀ O, ClosedSet L E s O → ClosedSet L E s O ∧ FrameOn L O s s) ∧ (∀ Ex, ClosedEx L E s Ex → ClosedEx L E s Ex) :=
+      ⟨hI, Global.refl L s, fun h => h, fun O h => ⟨h, FrameOn.refl L O s h.mods⟩, fun _ h => h⟩
     cases ps with
-    | nil => exact ⟨hI, Frame.refl L s, (fun _ p hp => by cases hp), fun h => h⟩
-    | cons p ps => exact ⟨hI, Frame.refl L s, (fun h => by cases h), fun h => h⟩
+    | nil => exact ⟨triv.1, triv.2.1, triv.2.2.1, fun _ => ⟨Frame.refl L s, fun p hp => by cases hp⟩, triv.2.2.2.1, triv.2.2.2.2⟩
+    | cons p ps => exact ⟨triv.1, triv.2.1, triv.2.2.1, (fun h => by cases h), triv.2.2.2.1, triv.2.2.2.2⟩
   | succ f ih =>
     intro ps s hps hI hM
     cases ps with
-    | nil => exact ⟨hI, Frame.refl L s, (fun _ p hp => by cases hp), fun h => h⟩
+    | nil =>
+      exact ⟨hI, Global.refl L s, fun h => h, fun _ => ⟨Frame.refl L s, fun p hp => by cases hp⟩,
+        fun O h => ⟨h, FrameOn.refl L O s h.mods⟩, fun _ h => h⟩
     | cons p ps =>
       simp only [loadAll]
-      obtain ⟨hI1, hF1, hok1, hE1⟩ := loadOne_inv L E hN (loadAll L E f) ih p s (hps p (by simp)) hI hM
-      generalize loadOne L E (loadAll L E f) p s = r1 at hI1 hF1 hok1 hE1
+      obtain ⟨hI1, hG1, hE1, hok1, hO1, hX1⟩ := loadOne_inv L E hN (loadAll L E f) ih p s (hps p (by simp)) hI hM
+      generalize loadOne L E (loadAll L E f) (unload L E) p s = r1 at hI1 hG1 hE1 hok1 hO1 hX1
       obtain ⟨r1r, s1⟩ := r1
-      simp only at hI1 hF1 hok1 hE1
+      simp only at hI1 hG1 hE1 hok1 hO1 hX1
       cases r1r with
-      | error e => exact ⟨hI1, hF1, (fun h => by cases h), hE1⟩
+      | error e => exact ⟨hI1, hG1, hE1, (fun h => by cases h), hO1, hX1⟩
       | ok u =>
         simp only
-        obtain ⟨hI2, hF2, hok2, hE2⟩ := ih ps s1 (fun q hq => hps q (List.mem_cons_of_mem _ hq)) hI1 (hF1.mainSrc ▸ hM)
-        refine ⟨hI2, hF1.trans L hF2, ?_, fun hE => hE2 (hE1 hE)⟩
-        intro h q hq
-        rcases List.mem_cons.1 hq with e | e
-        · subst e; exact hF2.mods _ (hok1 rfl)
-        · exact hok2 h q e
+        obtain ⟨hF1, hp1⟩ := hok1 rfl
+        obtain ⟨hI2, hG2, hE2, hok2, hO2, hX2⟩ := ih ps s1 (fun q hq => hps q (List.mem_cons_of_mem _ hq)) hI1 (hG1.mainSrc ▸ hM)
+        refine ⟨hI2, hG1.trans L hG2, fun h => hE2 (hE1 h), ?_, ?_, fun Ex h => hX2 Ex (hX1 Ex h)⟩
+        · intro h
+          obtain ⟨hF2, hps2⟩ := hok2 h
+          refine ⟨hF1.trans L hF2, ?_⟩
+          intro q hq
+          rcases List.mem_cons.1 hq with e | e
+          · subst e; exact hF2.mods _ hp1
+          · exact hps2 q e
+        · intro O hC
+          obtain ⟨a, b⟩ := hO1 O hC
+          obtain ⟨a', b'⟩ := hO2 O a
+          exact ⟨a', b.trans L b'⟩
 
-/-! ## the other operations -/
+/-! ## the operations -/
 
 /-- well-formed operation: module names are dotted paths -/
 def Op.wf : Op Src → Prop
@@ -736,154 +1231,122 @@ def Op.wf : Op Src → Prop
   | .unload _ => True
   | .resubmit src => SrcOk L src
 
-theorem unload_inv (s : St L) (m : ModPath) (hI : Inv L E s) : Inv L E (unload L s m) := by
-  unfold unload
-  split
-  · refine ⟨?_, ?_, hI.ast, ?_, hI.stored, ?_, ?_⟩
-    · intro x ep hx
-      simp only [alookup_aerase] at hx
-      split at hx
-      · cases hx
-      · exact hI.memo x ep hx
-    · intro x ep hx
-      simp only [alookup_aerase] at hx
-      split at hx
-      · cases hx
-      · exact hI.tree x ep hx
-    · intro k v hkv
-      simp only [List.mem_filter, decide_eq_true_eq] at hkv ⊢
-      exact ⟨hI.tags k v hkv.1, hkv.2⟩
-    · intro x hx
-      simp only [List.mem_filter, decide_eq_true_eq] at hx ⊢
-      exact ⟨hI.completed x hx.1, hx.2⟩
-    · intro x hx
-      simp only [List.mem_filter, decide_eq_true_eq] at hx
-      rw [ahas_iff]
-      simp only [alookup_aerase, hx.2, if_false]
-      exact (ahas_iff _ _).1 (hI.eps x hx.1)
-  · exact hI
-
-/-- a new source for the in-memory module followed by its unload (Interactive.rebuild_module) keeps the caches coherent -/
-theorem resubmit_unload_inv (s : St L) (src : Src) (hI : Inv L E s) (hmain : E.main ∈ s.mods ∨ alookup s.eps E.main = none) :
-    Inv L E (unload L { s with mainSrc := src } E.main) := by
-  have key : ∀ x, x ≠ E.main → srcOf L E { s with mainSrc := src } x = srcOf L E s x := by
-    intro x hx
-    unfold srcOf
-    cases E.disk x <;> simp [hx]
-  unfold unload
-  split
-  · refine ⟨?_, ?_, hI.ast, ?_, hI.stored, ?_, ?_⟩
-    · intro x ep hx
-      simp only [alookup_aerase] at hx
-      split at hx
-      · cases hx
-      · exact hI.memo x ep hx
-    · intro x ep hx
-      simp only [alookup_aerase] at hx
-      split at hx
-      · cases hx
-      · next hne =>
-        have := hI.tree x ep hx
-        have hk := key x hne
-        unfold srcOf at hk this ⊢
-        simp only at hk ⊢
-        rw [hk]; exact this
-    · intro k v hkv
-      simp only [List.mem_filter, decide_eq_true_eq] at hkv ⊢
-      exact ⟨hI.tags k v hkv.1, hkv.2⟩
-    · intro x hx
-      simp only [List.mem_filter, decide_eq_true_eq] at hx ⊢
-      exact ⟨hI.completed x hx.1, hx.2⟩
-    · intro x hx
-      simp only [List.mem_filter, decide_eq_true_eq] at hx
-      rw [ahas_iff]
-      simp only [alookup_aerase, hx.2, if_false]
-      exact (ahas_iff _ _).1 (hI.eps x hx.1)
-  · next hnot =>
-    have hnone : alookup s.eps E.main = none := by
-      rcases hmain with h | h
-      · exact absurd h hnot
-      · exact h
-    refine ⟨hI.memo, ?_, hI.ast, hI.tags, hI.stored, hI.completed, hI.eps⟩
-    intro x ep hx
-    have hne : x ≠ E.main := by
-      intro e; subst e
-      simp only at hx
-      rw [hnone] at hx; cases hx
-    have := hI.tree x ep hx
-    have hk := key x hne
-    unfold srcOf at hk this ⊢
-    simp only at hk ⊢
-    rw [hk]; exact this
-
-theorem unload_epsSub (s : St L) (m : ModPath) (hE : EpsSub L s) : EpsSub L (unload L s m) := by
-  unfold unload
-  split
-  · intro x hx
-    rw [ahas_iff] at hx
-    simp only [alookup_aerase] at hx
-    simp only [List.mem_filter, decide_eq_true_eq]
-    split at hx
-    · obtain ⟨_, h⟩ := hx; cases h
-    · next hne => exact ⟨hE x ((ahas_iff _ _).2 hx), hne⟩
-  · exact hE
-
 /-- the coherence invariant of a state between two operations -/
-def Coherent (s : St L) : Prop := Inv L E s ∧ EpsSub L s ∧ SrcOk L s.mainSrc
+def Coherent (s : St L) : Prop := Inv L E s ∧ EpsSub L s ∧ SrcOk L s.mainSrc ∧ ClosedEx L E s []
 
-theorem touch_inv (s : St L) (m : ModPath) (ep : Ep Tree NV) (hI : Inv L E s) (hE : EpsSub L s) (hep : alookup s.eps m = some ep)
+theorem unloadF_setMain (src : Src) : ∀ f (s : St L) m,
+    unloadF L E f { s with mainSrc := src } m = { unloadF L E f s m with mainSrc := src } := by
+  intro f
+  induction f with
+  | zero => intro s m; rfl
+  | succ f ih =>
+    intro s m
+    simp only [unloadF]
+    by_cases hm : m ∈ s.mods
+    · simp only [hm, if_true]
+      have fold : ∀ (D : List ModPath) (s' : St L),
+          D.foldl (fun s d => unloadF L E f s d) { s' with mainSrc := src } = { D.foldl (fun s d => unloadF L E f s d) s' with mainSrc := src } := by
+        intro D
+        induction D with
+        | nil => intro s'; rfl
+        | cons d rest ihD => intro s'; simp only [List.foldl]; rw [ih s' d]; exact ihD _
+      have h1 : unloadOne L ({ s with mainSrc := src } : St L) m = { unloadOne L s m with mainSrc := src } := rfl
+      have h2 : dependents L E (unloadOne L ({ s with mainSrc := src } : St L) m) m = dependents L E (unloadOne L s m) m := rfl
+      rw [h2, h1]
+      exact fold _ _
+    · simp only [hm, if_false]
+
+theorem unload_setMain (src : Src) (s : St L) (m : ModPath) :
+    unload L E { s with mainSrc := src } m = { unload L E s m with mainSrc := src } :=
+  unloadF_setMain L E src _ s m
+
+theorem setMain_coherent (s : St L) (src : Src) (hC : Coherent L E s) (hsrc : SrcOk L src) (hmain : E.main ∉ s.mods) :
+    Coherent L E { s with mainSrc := src } := by
+  obtain ⟨hI, hE, _, hX⟩ := hC
+  refine ⟨⟨hI.memo, ?_, hI.ast, hI.tags, hI.stored, hI.completed, hI.eps⟩, hE, hsrc, hX⟩
+  intro x ep hx
+  have hne : x ≠ E.main := by
+    intro e
+    exact hmain (e ▸ hE x ((ahas_iff _ _).2 ⟨ep, hx⟩))
+  have key : srcOf L E ({ s with mainSrc := src } : St L) x = srcOf L E s x := by
+    unfold srcOf; cases E.disk x <;> simp [hne]
+  rw [key]
+  exact hI.tree x ep hx
+
+theorem unload_coherent (s : St L) (m : ModPath) (hC : Coherent L E s) : Coherent L E (unload L E s m) := by
+  obtain ⟨hI, hE, hM, hX⟩ := hC
+  refine ⟨unload_inv L E s m hI, unload_epsSub L E s m hE, ?_, ?_⟩
+  · rw [(unload_sub L E s m).mainSrc]; exact hM
+  · apply closedEx_unload
+    intro x hx _ d hd
+    exact hX x hx (by simp) d hd
+
+theorem touch_inv (s : St L) (m : ModPath) (ep : Ep Tree NV) (hC : Coherent L E s) (hep : alookup s.eps m = some ep)
     (d : List (List Str)) (pr : List (List Text)) :
-    Inv L E { s with eps := aset s.eps m (Ep.touch L ep), deps := d, proc := pr } ∧
-    EpsSub L { s with eps := aset s.eps m (Ep.touch L ep), deps := d, proc := pr } := by
+    Coherent L E { s with eps := aset s.eps m (Ep.touch L ep), deps := d, proc := pr } := by
+  obtain ⟨hI, hE, hM, hX⟩ := hC
   have hm : m ∈ s.mods := hE m ((ahas_iff _ _).2 ⟨ep, hep⟩)
   obtain ⟨hI1, _⟩ := step_expand L E s m ep [] hI hm hep (fun _ h => by cases h)
-  constructor
-  · exact ⟨hI1.memo, hI1.tree, hI1.ast, hI1.tags, hI1.stored, hI1.completed, hI1.eps⟩
+  refine ⟨⟨hI1.memo, hI1.tree, hI1.ast, hI1.tags, hI1.stored, hI1.completed, hI1.eps⟩, ?_, hM, ?_⟩
   · intro x hx
     rw [ahas_iff] at hx
     simp only [alookup_aset] at hx
     split at hx
     · next e => exact e ▸ hm
     · exact hE x ((ahas_iff _ _).2 hx)
+  · intro x hx hxe dd hd
+    apply hX x hx hxe dd
+    have himp : importsOf L ({ s with eps := aset s.eps m (Ep.touch L ep), deps := d, proc := pr } : St L) x = importsOf L s x := by
+      unfold importsOf
+      simp only [alookup_aset]
+      by_cases e : m = x
+      · subst e; simp [hep, Ep.touch]
+      · simp [e]
+    unfold depsOf at hd ⊢
+    rw [himp] at hd
+    exact hd
+
+theorem load_coherent (hN : Names L E) (f : Nat) (s : St L) (m : ModPath) (hm : GoodName m) (hC : Coherent L E s) :
+    Coherent L E (loadAll L E f [m] s).2 := by
+  obtain ⟨hI1, hG1, hE1, _, _, hX1⟩ := loadAll_inv L E hN f [m] s (by intro p hp; simp at hp; exact hp ▸ hm) hC.1 hC.2.2.1
+  exact ⟨hI1, hE1 hC.2.1, hG1.mainSrc ▸ hC.2.2.1, hX1 [] hC.2.2.2⟩
 
 theorem transpile_coherent (hN : Names L E) (f : Nat) (s : St L) (m : ModPath) (hm : GoodName m) (hC : Coherent L E s) :
     Coherent L E (transpile L E f s m).2 := by
   unfold transpile
-  obtain ⟨hI1, hF1, _, hE1⟩ := loadAll_inv L E hN f [m] s (by intro p hp; simp at hp; exact hp ▸ hm) hC.1 hC.2.2
-  generalize loadAll L E f [m] s = r at hI1 hE1 hF1
+  have hC1 := load_coherent L E hN f s m hm hC
+  generalize loadAll L E f [m] s = r at hC1
   obtain ⟨rr, s1⟩ := r
-  simp only at hI1 hE1 hF1
-  have hE1' := hE1 hC.2.1
-  have hM1 : SrcOk L s1.mainSrc := hF1.mainSrc ▸ hC.2.2
+  simp only at hC1
   cases rr with
-  | error e => exact ⟨hI1, hE1', hM1⟩
+  | error e => exact hC1
   | ok u =>
     simp only
     cases hep : alookup s1.eps m with
-    | none => exact ⟨hI1, hE1', hM1⟩
+    | none => exact hC1
     | some ep =>
       simp only
       cases (L.render m (Ep.nf L ep) (alookup s1.db)).1 with
-      | ok t =>
-        obtain ⟨a, b⟩ := touch_inv L E s1 m ep hI1 hE1' hep s1.deps s1.proc
-        exact ⟨a, b, hM1⟩
-      | error e =>
-        obtain ⟨a, b⟩ := touch_inv L E s1 m ep hI1 hE1' hep
-          ((L.render m (Ep.nf L ep) (alookup s1.db)).2.1 :: s1.deps) ((L.render m (Ep.nf L ep) (alookup s1.db)).2.2 :: s1.proc)
-        exact ⟨a, b, hM1⟩
+      | ok t => exact touch_inv L E s1 m ep hC1 hep s1.deps s1.proc
+      | error e => exact touch_inv L E s1 m ep hC1 hep _ _
 
 theorem init_coherent (src : Src) (hsrc : SrcOk L src) : Coherent L E ({ mainSrc := src } : St L) := by
-  refine ⟨⟨?_, ?_, ?_, ?_, ?_, ?_, ?_⟩, ?_, hsrc⟩ <;> intro x <;> simp [alookup, ahas]
+  refine ⟨⟨?_, ?_, ?_, ?_, ?_, ?_, ?_⟩, ?_, hsrc, ?_⟩ <;> intro x <;> simp [alookup, ahas]
+
+theorem resubmit_unload_coherent (s : St L) (src : Src) (hC : Coherent L E s) (hsrc : SrcOk L src) :
+    Coherent L E (unload L E { s with mainSrc := src } E.main) := by
+  rw [unload_setMain]
+  exact setMain_coherent L E _ src (unload_coherent L E s E.main hC) hsrc (unload_not_mem L E s E.main)
 
 theorem step_coherent (hN : Names L E) (f : Nat) (s : St L) (op : Op Src) (hop : Op.wf L op) (hC : Coherent L E s) :
     Coherent L E (step L E f s op).2 := by
   cases op with
   | load m =>
     simp only [step]
-    obtain ⟨hI1, hF1, _, hE1⟩ := loadAll_inv L E hN f [m] s (by intro p hp; simp at hp; exact hp ▸ hop) hC.1 hC.2.2
-    generalize loadAll L E f [m] s = r at hI1 hE1 hF1
+    have := load_coherent L E hN f s m hop hC
+    generalize loadAll L E f [m] s = r at this
     obtain ⟨rr, s1⟩ := r
-    cases rr <;> exact ⟨hI1, hE1 hC.2.1, hF1.mainSrc ▸ hC.2.2⟩
+    cases rr <;> exact this
   | transpile m =>
     simp only [step]
     have := transpile_coherent L E hN f s m hop hC
@@ -892,18 +1355,11 @@ theorem step_coherent (hN : Names L E) (f : Nat) (s : St L) (op : Op Src) (hop :
     cases rr <;> exact this
   | unload m =>
     simp only [step]
-    refine ⟨unload_inv L E s m hC.1, unload_epsSub L s m hC.2.1, ?_⟩
-    unfold unload; split <;> exact hC.2.2
+    exact unload_coherent L E s m hC
   | resubmit src =>
     simp only [step, resubmit]
-    have h1 : Coherent L E (unload L { s with mainSrc := src } E.main) := by
-      refine ⟨resubmit_unload_inv L E s src hC.1 ?_, unload_epsSub L _ E.main hC.2.1, ?_⟩
-      · cases h : alookup s.eps E.main with
-        | none => exact Or.inr rfl
-        | some ep => exact Or.inl (hC.2.1 E.main ((ahas_iff _ _).2 ⟨ep, h⟩))
-      · unfold unload; split <;> exact hop
-    have := transpile_coherent L E hN f _ E.main hN.main h1
-    generalize transpile L E f (unload L { s with mainSrc := src } E.main) E.main = r at this
+    have := transpile_coherent L E hN f _ E.main hN.main (resubmit_unload_coherent L E s src hC hop)
+    generalize transpile L E f (unload L E { s with mainSrc := src } E.main) E.main = r at this
     obtain ⟨rr, s1⟩ := r
     cases rr <;> exact this
 
